@@ -2,7 +2,8 @@
 From InfOCF Require Import Core Tol Lex Form Model Spec ThmOps ThmTop.
 From InfOCFProps Require Import Ex.
 From InfOCF Require Import PyLib TieSolver TieMax TieLayer TieLex TieLexTop.
-From InfOCFGen Require Import SrcLex.
+From InfOCFGen Require Import SrcLex SrcLexZ3.
+From InfOCF Require Import TieZ3 TieLexZ3.
 From Coq Require Import ZArith.
 
 Theorem C04_lex_inf_is_lexicographic_definition : forall n D q P, D <> [] -> part_strict n D = Some P ->
@@ -44,6 +45,22 @@ Theorem C04_source_code_is_lexicographic_definition : forall n D, NoDup (map kz 
     (trivial n q || b) = lex_spec (worlds n) P q.
 Proof. exact src_lex_strict_spec. Qed.
 Print Assumptions C04_source_code_is_lexicographic_definition.
+
+(* SOURCE TIE, the alternative back-end.  py_LexInfZ3_inference, _rec_inference and get_all_xi_i are GENERATED on every run from
+   /repo's lex_inf_z3.py (coq/gen/SrcLexZ3.v); z3's Optimize is modelled by PyLib.zopt.  For every partition whose layers
+   have distinct keys the generated function returns the model's answer and hands both optimisers back unchanged. *)
+Theorem C04_source_z3_backend_is_model : forall n q Pc, (forall L, In L Pc -> NoDup (map ckz L)) -> forall weakly u, Pc <> [] ->
+  py_LexInfZ3_inference n (S (length Pc + length (worlds n) + 1)) Pc q weakly u
+  = Return (if weakly then lex_ext n (acP Pc) q else lex_strict n (acP Pc) q).
+Proof. exact tie_lexz3_inference. Qed.
+Print Assumptions C04_source_z3_backend_is_model.
+Theorem C04_source_z3_recursion_restores_the_optimisers : forall n q Pc, (forall L, In L Pc -> NoDup (map ckz L)) ->
+  forall k fuel ov of (Hv Hf:pred world), k < length Pc -> k + length (worlds n) + 1 < fuel ->
+  o_soft ov = [] -> o_soft of = [] -> (forall w, o_holds ov w = Hv w) -> (forall w, o_holds of w = Hf w) ->
+  py_LexInfZ3_rec_inference n fuel Pc ov of (Z.of_nat k) q
+  = Return (lex_rec world (worlds n) (ver q) (fal q) (rev (map layer_of (firstn (S k) (acP Pc)))) Hv Hf, (ov, of)).
+Proof. exact rec_tie_lexz3. Qed.
+Print Assumptions C04_source_z3_recursion_restores_the_optimisers.
 
 Example lex_tie : infer 5 SysLex false birds5 q_tie = Ans true /\ infer 5 SysW false birds5 q_tie = Ans false
   /\ map (infer 4 SysLex false birds) [q_fp; q_nfp; q_wp] = [Ans false; Ans true; Ans true].
